@@ -294,7 +294,7 @@ package ir
 //@ # ---------------------------------------------------------------- C07 ---
 //@ # getIndex: the same contract for every copy (macros in specs/llvm_gep.spec).
 //@ func getIndex
-//@   props C07 C03
+//@   props C07 C03 C06
 //@   requires index != nil && gkind(gunwrap(index)) && gwf(gunwrap(index))
 //@   assigns nothing
 //@   ensures !result.Scalable
@@ -403,7 +403,7 @@ package ir
 //@ # gepInstType classifies the operands and applies gep.ResultType; its result obeys LLVM's rule stated
 //@ # over the operands themselves (gepPre/gepPost, specs/llvm_gep.spec).
 //@ func gepInstType
-//@   props C07 C03
+//@   props C07 C03 C06
 //@   requires gepPre(elemType, src, indices)
 //@   assigns caches
 //@   ensures gepPost(result, elemType, src, indices, old(gwalkV(elemType, indices, len(indices))))
@@ -560,13 +560,14 @@ package ir
 //@   props C03
 //@   assigns nothing
 //@   ensures result != nil && fresh(result) && result.LocalName == name && result.LocalID == 0 && len(result.Insts) == 0 && result.Term == nil
+//@ # (C14: the pointer type of a global is computed at construction, so that observing the global later fills no cache)
 //@ func NewGlobal
-//@   props C03
+//@   props C03 C14
 //@   assigns nothing
 //@   ensures result != nil && fresh(result) && result.GlobalName == name && result.GlobalID == 0 && result.ContentType == contentType && result.Init == nil
 //@   ensures result.Typ != nil && fresh(result.Typ) && result.Typ.ElemType == contentType && result.Typ.AddrSpace == 0
 //@ func NewGlobalDef
-//@   props C03
+//@   props C03 C14
 //@   requires init != nil
 //@   assigns caches
 //@   ensures result != nil && fresh(result) && result.GlobalName == name && result.GlobalID == 0 && result.ContentType == vtype(init) && result.Init == init
